@@ -14,6 +14,7 @@ from . import dsl
 from . import specfuns as SF
 from .values import *    # noqa
 from .values import Unsupported, CMD_UNIVERSE
+from .abstraction import unsat_abstract
 
 TWO32 = 2 ** 32
 
@@ -108,6 +109,28 @@ def has_quantifier(t):
     return res
 
 
+def flatten_and(tree):
+    if isinstance(tree, ast.BoolOp) and isinstance(tree.op, ast.And):
+        out = []
+        for v in tree.values:
+            out.extend(flatten_and(v))
+        return out
+    return [tree]
+
+
+def mentions(tree, target):
+    """Does `tree` mention the expression `target` outside old(...)?"""
+    want = ast.dump(target)
+
+    def walk(n):
+        if isinstance(n, ast.Call) and isinstance(n.func, ast.Name) and n.func.id == 'old':
+            return False
+        if isinstance(n, ast.AST) and ast.dump(n) == want:
+            return True
+        return any(walk(c) for c in ast.iter_child_nodes(n))
+    return walk(tree)
+
+
 def map_ite_leaves(t, fn):
     """Apply a concrete int function to every leaf of an if-then-else tree of integer literals (None if not such a tree)."""
     if z3.is_int_value(t):
@@ -180,18 +203,9 @@ class Executor(object):
         return len(self.decisions) >= len(self.prefix)
 
     def feasible(self, cond):
-        s = z3.Solver()
-        s.set('timeout', self.fsolver_timeout)
-        s.set('rlimit', 3000000)
-        # quantified facts are left out: fewer constraints can only make more paths look feasible (sound)
-        fs = [f for f in self.pc if not has_quantifier(f)] + [cond]
-        for f in fs:
-            s.add(f)
-        for f in SF.axioms_for(fs, rounds=1):
-            s.add(f)
+        """Path pruning on the arithmetic abstraction only (see pyvc/abstraction.py): `infeasible` is certain, `feasible` is not."""
         self.stats['feasibility_checks'] += 1
-        r = s.check()
-        return r != z3.unsat
+        return not unsat_abstract(self.pc + [cond], self.fsolver_timeout)
 
     def branch(self, cond):
         c = z3.simplify(cond)
@@ -219,15 +233,8 @@ class Executor(object):
         return d
 
     def entails(self, f):
-        """The path condition implies f (decided now, with the feasibility solver; `unknown` counts as no)."""
-        s = z3.Solver()
-        s.set('timeout', 5000)
-        fs = self.pc + [z3.Not(f)]
-        for g in fs:
-            s.add(g)
-        for g in SF.axioms_for(fs, rounds=1):
-            s.add(g)
-        return s.check() == z3.unsat
+        """The path condition implies f, decided on the arithmetic abstraction (a `no` is always safe for the callers)."""
+        return unsat_abstract(self.pc + [z3.Not(f)], 2000)
 
     def choose(self, label):
         """A nondeterministic binary choice (callee raises / does not raise ...)."""
@@ -608,14 +615,19 @@ class Executor(object):
         scope['_n'] = scope['_yi']
         return scope
 
+    def bind_lets(self, contract, scope):
+        for name, text in contract.lets:
+            scope[name] = self.eval_clause_value(text, scope)
+
     def check_post(self, contract, result):
         scope = self.spec_scope(self.entry_params, result, None)
-        if contract.returns is not None and not isinstance(contract.returns, dict):
+        if contract.returns is not None and isinstance(contract.returns, str):
             self.check_result_type(contract, result)
         for target, expr in contract.ghost_exit:
             # ghost statement at the normal exit (history variables): G.<field> := expr
             v = self.eval_clause_value(expr, scope)
             self.G.fields[target.split('.', 1)[1]] = v
+        self.bind_lets(contract, scope)
         for c in contract.defines:
             self.assume(self.eval_clause(c, scope))
         self.cur_node = self.fn_node
@@ -647,6 +659,7 @@ class Executor(object):
                         meta={'exc': exc.cls})
             return
         scope = self.spec_scope(self.entry_params, None, exc)
+        self.bind_lets(contract, scope)
         for c in clauses:
             f = self.eval_clause(c, scope)
             self.oblige(c.label, f, self.props_of(c, contract), 'exc', expr=c.expr, meta={'exc': exc.cls})
@@ -1114,6 +1127,7 @@ class Executor(object):
         for o, f in locs:
             uniq[(id(o), f)] = (o, f)
         self.havoc_locs(uniq.values())
+        self.loop_fresh = (set(names), set(uniq.keys()))
 
     def call_write_set(self, call, depth=0):
         """Static write set of a call inside a loop body: the callee contract's modifies mapped through the arguments;
@@ -1362,8 +1376,19 @@ class Executor(object):
 
     def assume_invariant(self, spec, idx, seq):
         scope = self.inv_scope(idx, seq)
+        fresh_names, fresh_locs = getattr(self, 'loop_fresh', (set(), set()))
+        holder = {'result': None}
+        done = set()
+        state = {'result_seen': True}
         for c in spec.invariant:
-            self.assume(self.eval_clause(c, scope))
+            for t in flatten_and(c.tree):
+                try:
+                    self.assume_or_bind(t, scope, holder, None, fresh_locs, done, state, fresh_names)
+                except KeyError as e:
+                    raise Unsupported('loop invariant %r refers to %s which does not exist' % (c.expr, e))
+        for n, v in holder.get('names', {}).items():
+            if n in self.env:
+                self.env[n] = v
 
     def eval_spec_expr(self, text, idx=None, seq=None):
         scope = self.inv_scope(idx, seq)
@@ -1597,7 +1622,7 @@ class Executor(object):
             raise RaiseSig(VExc('TypeError'))
         if isinstance(op, ast.Add):
             if isinstance(a, VBytes) and isinstance(b, VBytes):
-                return VBytes(z3.Concat(a.term, b.term), a.ba)
+                return VBytes(self.concat_terms(a.term, b.term), a.ba)
             if isinstance(a, VStr) and isinstance(b, VStr):
                 return VStr(z3.Concat(a.term, b.term))
             if isinstance(a, (VList, VTuple)) and isinstance(b, (VList, VTuple)):
@@ -1708,6 +1733,52 @@ class Executor(object):
         hi = norm(sl.upper, n)
         return lo, hi
 
+    def concat_terms(self, x, y):
+        """x ++ y, merging adjacent pieces of the same sync byte stream: SB(l,a,b) ++ SB(l,b,c) == SB(l,a,c) (split axiom)."""
+        def is_sb(t):
+            return z3.is_app(t) and t.decl().kind() == z3.Z3_OP_UNINTERPRETED and t.decl().name() == 'SB'
+        if is_sb(x) and is_sb(y) and x.arg(0).eq(y.arg(0)):
+            a, b, b2, c = x.arg(1), x.arg(2), y.arg(1), y.arg(2)
+            if self.cheap_entails(z3.And(b == b2, a <= b, b <= c)):
+                return SF.SB(x.arg(0), a, c)
+        if z3.is_app(x) and x.decl().kind() == z3.Z3_OP_SEQ_EMPTY:
+            return y
+        if z3.is_app(y) and y.decl().kind() == z3.Z3_OP_SEQ_EMPTY:
+            return x
+        return z3.Concat(x, y)
+
+    def slice_term(self, t, lo, hi, depth=0):
+        """t[lo:hi] for already clamped 0 <= lo, hi <= len(t): pushed through concatenations and earlier extractions
+        where the path condition (arithmetic abstraction) shows on which side of a boundary the slice lies."""
+        lo, hi = z3.simplify(lo), z3.simplify(hi)
+        if depth < 6 and z3.is_app(t):
+            k = t.decl().kind()
+            if k == z3.Z3_OP_SEQ_CONCAT and self.cheap_entails(hi >= lo):
+                parts = t.children()
+                first = parts[0]
+                rest = parts[1] if len(parts) == 2 else z3.Concat(*parts[1:])
+                n1 = z3.Length(first)
+                if self.cheap_entails(hi <= n1):
+                    return self.slice_term(first, lo, hi, depth + 1)
+                if self.cheap_entails(lo >= n1):
+                    return self.slice_term(rest, lo - n1, hi - n1, depth + 1)
+                if self.cheap_entails(z3.And(lo <= n1, hi >= n1)):
+                    a = self.slice_term(first, lo, n1, depth + 1)
+                    b = self.slice_term(rest, z3.IntVal(0), hi - n1, depth + 1)
+                    return z3.Concat(a, b)
+            elif k == z3.Z3_OP_UNINTERPRETED and t.decl().name() == 'SB' and self.cheap_entails(hi >= lo):
+                a, b = t.arg(1), t.arg(2)
+                if self.cheap_entails(z3.And(lo >= 0, a + hi <= b)):
+                    return SF.SB(t.arg(0), z3.simplify(a + lo), z3.simplify(a + hi))
+            elif k == z3.Z3_OP_SEQ_EXTRACT and self.cheap_entails(hi >= lo):
+                base, off, n = t.arg(0), t.arg(1), t.arg(2)
+                if self.cheap_entails(z3.And(off >= 0, n >= 0, off + n <= z3.Length(base), hi <= n, lo >= 0)):
+                    return z3.simplify(z3.SubSeq(base, off + lo, hi - lo))
+        if self.cheap_entails(z3.And(lo == 0, hi == z3.Length(t))):
+            return t
+        ln = (hi - lo) if self.cheap_entails(hi >= lo) else z3.If(hi - lo < 0, 0, hi - lo)
+        return z3.simplify(z3.SubSeq(t, lo, ln))
+
     def cheap_entails(self, f):
         """Used only to pick the simpler of two equivalent encodings (Python's slice clamping): a `no` is always safe."""
         f = z3.simplify(f)
@@ -1719,12 +1790,7 @@ class Executor(object):
         cache = self.__dict__.setdefault('_cheap_cache', {})
         if key in cache:
             return cache[key][1]
-        s = z3.Solver()
-        s.set('timeout', 400)
-        for g in self.pc + list(self.assume_ctx):
-            s.add(g)
-        s.add(z3.Not(f))
-        r = s.check() == z3.unsat
+        r = unsat_abstract(self.pc + list(self.assume_ctx) + [z3.Not(f)], 300)
         cache[key] = (f, r)       # keeps f alive so its id is not recycled
         return r
 
@@ -1737,8 +1803,7 @@ class Executor(object):
                 if isinstance(base, VStr):
                     raise Unsupported('slicing a str')
                 lo, hi = self.slice_bounds(node.slice, base)
-                ln = (hi - lo) if self.cheap_entails(hi >= lo) else z3.If(hi - lo < 0, 0, hi - lo)
-                return VBytes(z3.simplify(z3.SubSeq(base.term, lo, ln)), base.ba)
+                return VBytes(self.slice_term(base.term, lo, hi), base.ba)
             if isinstance(base, VStr):
                 raise Unsupported('indexing a str')
             i = to_int(self.eval(node.slice))
@@ -1887,6 +1952,8 @@ class Executor(object):
                 raise RaiseSig(exc)
         result = None
         rtype = contract.returns
+        if callable(rtype):
+            rtype = rtype(self, bound)
         if isinstance(rtype, dict):
             sel = truth(bound[rtype['by']])
             rtype = rtype[True] if self.branch(sel) else rtype[False]
@@ -1894,7 +1961,7 @@ class Executor(object):
             result = self.fresh(rtype, contract.key.split('.')[-1] + '.ret')
         else:
             result = NONE
-        self.apply_effects(contract, bound, old, old_bound, list(contract.ensures) + list(contract.defines), result, None)
+        result = self.apply_effects(contract, bound, old, old_bound, list(contract.ensures) + list(contract.defines), result, None, rtype)
         event['outcome'] = ('return', result)
         event['post'] = self.capture_modified(contract, bound)
         return result
@@ -1909,7 +1976,7 @@ class Executor(object):
                 pass
         return out
 
-    def apply_effects(self, contract, bound, old, old_bound, clauses, result, exc_cls):
+    def apply_effects(self, contract, bound, old, old_bound, clauses, result, exc_cls, rtype=None):
         locs = []
         for m in contract.modifies:
             locs.extend(self.resolve_path(m, bound))
@@ -1921,7 +1988,106 @@ class Executor(object):
         saved = (self.old_snap, self.old_env)
         self.old_snap, self.old_env = old, old_bound
         try:
+            self.bind_lets(contract, scope)
+            holder = {'result': result}
+            fresh_locs = {(id(o), f) for o, f in locs}
+            done_locs = set()
+            state = {'result_seen': False}
             for c in clauses:
-                self.assume(self.eval_clause(c, scope))
+                for t in flatten_and(c.tree):
+                    self.assume_or_bind(t, scope, holder, rtype, fresh_locs, done_locs, state, set())
+            result = holder['result']
         finally:
             self.old_snap, self.old_env = saved
+        return result
+
+    def assume_or_bind(self, t, scope, holder, rtype, fresh_locs, done_locs, state, fresh_names):
+        """Assume the conjunct t; a definitional equation `x == E` for a just-havocked x (the result, a modified field, a loop
+        variable) with E not mentioning x is *bound* (x := E) instead -- same meaning, but terms stay structural."""
+        done = False
+        if isinstance(t, ast.Compare) and len(t.ops) == 1 and isinstance(t.ops[0], ast.Eq):
+            lhs, rhs = t.left, t.comparators[0]
+            if isinstance(lhs, ast.Name) and lhs.id == 'result' and holder.get('result') is not None and isinstance(rtype, str) \
+                    and not state['result_seen'] and not mentions(rhs, lhs):
+                try:
+                    v = self.retag(self.eval_clause_value_tree(rhs, scope), rtype)
+                except Unsupported:
+                    v = None
+                if v is not None:
+                    holder['result'] = v
+                    scope['result'] = v
+                    done = True
+            elif isinstance(lhs, ast.Name) and lhs.id in fresh_names and lhs.id not in done_locs and not mentions(rhs, lhs):
+                cur = scope.get(lhs.id)
+                try:
+                    v = self.eval_clause_value_tree(rhs, scope)
+                except Unsupported:
+                    v = None
+                if v is not None and type(v) is type(cur) and isinstance(v, (VInt, VBytes, VBool, VReal)):
+                    if isinstance(v, VBytes):
+                        v = VBytes(v.term, cur.ba)
+                    scope[lhs.id] = v
+                    holder.setdefault('names', {})[lhs.id] = v
+                    done_locs.add(lhs.id)
+                    done = True
+            elif isinstance(lhs, ast.Attribute) and not mentions(rhs, lhs):
+                loc = self.static_location(lhs, scope)
+                if loc is not None and (id(loc[0]), loc[1]) in fresh_locs and (id(loc[0]), loc[1]) not in done_locs:
+                    cur = loc[0].fields[loc[1]]
+                    try:
+                        v = self.eval_clause_value_tree(rhs, scope)
+                    except Unsupported:
+                        v = None
+                    if v is not None and type(v) is type(cur) and isinstance(v, (VInt, VBytes, VBool, VReal, VMap)):
+                        if isinstance(v, VBytes):
+                            v = VBytes(v.term, cur.ba)
+                        loc[0].fields[loc[1]] = v
+                        done_locs.add((id(loc[0]), loc[1]))
+                        done = True
+        if any(isinstance(n, ast.Name) and n.id == 'result' for n in ast.walk(t)):
+            state['result_seen'] = True
+        if not done:
+            saved_env, saved_mode = self.env, self.mode
+            self.env, self.mode = scope, 'spec'
+            try:
+                f = truth(self.eval(t))
+            finally:
+                self.env, self.mode = saved_env, saved_mode
+            self.assume(f)
+
+    def static_location(self, node, scope):
+        """(object, field) denoted by an attribute chain over the scope's names, or None."""
+        if not isinstance(node, ast.Attribute):
+            return None
+        try:
+            saved = self.env
+            self.env = scope
+            try:
+                base = self.eval_pure(node.value)
+            finally:
+                self.env = saved
+        except (Unsupported, KeyError):
+            return None
+        if isinstance(base, VOpt):
+            base = base.val
+        if isinstance(base, VObj) and node.attr in base.fields:
+            return (base, node.attr)
+        return None
+
+    def retag(self, v, rtype):
+        rtype = rtype.strip()
+        if rtype in ('bytes', 'bytearray') and isinstance(v, VBytes):
+            return VBytes(v.term, rtype == 'bytearray')
+        if rtype == 'str' and isinstance(v, VStr):
+            return v
+        if rtype in ('int',) and isinstance(v, VInt):
+            return v
+        return None
+
+    def eval_clause_value_tree(self, tree, scope):
+        saved_env, saved_mode = self.env, self.mode
+        self.env, self.mode = scope, 'spec'
+        try:
+            return self.eval(tree)
+        finally:
+            self.env, self.mode = saved_env, saved_mode
